@@ -803,6 +803,19 @@ WITNESS = [
 ]
 
 
+# (scale, power of two?) — practice J
+SCALES = [(2.0 ** -30, True), (2.0 ** -60, True), (2.0 ** -70, True), (2.0 ** 36, True), (1e-6, False), (1e-19, False), (1e6, False)]
+SCALE_BASE = {}     # case index -> (constructor, unscaled arguments, scale, exact?)
+FALSY = [
+    dict(minimum=0, mean=0), dict(minimum=0.0, mean=1.5), dict(minimum=-2.0, mean=0), dict(maximum=0, mean=-1.5),
+    dict(maximum=0.0, mean=0.0), dict(mean=0, std=1.0), dict(mean=0.0, std=0), dict(mean=0, var=0.25), dict(mean=1.0, var=0),
+    dict(minimum=0, maximum=2, mean=0), dict(minimum=-2, maximum=0, mean=0), dict(minimum=-1, maximum=1, mean=0),
+    dict(minimum=0, maximum=2, median=0), dict(minimum=-1.0, maximum=1.0, median=-0.0), dict(minimum=-1, maximum=1, mode=0),
+    dict(minimum=-2, maximum=0, mode=0), dict(minimum=-1, maximum=1, mean=0, std=0.5), dict(minimum=-1, maximum=1, mean=0, std=0),
+    dict(minimum=0, maximum=2, mean=1, var=0), dict(minimum=-1.0, maximum=1.0, mean=-0.0, var=0.25),
+]
+
+
 def gen_malformed(rng, fn):
     A = gen_valid(rng, fn, True)
     A = {k: float(v) for k, v in A.items()}
@@ -866,6 +879,28 @@ def gen_cases(ctx):
             cases.append(("dispatch-valid", "known_properties", A, "direct"))
         A = gen_valid(rng, ROUTE[ks], True)
         cases.append(("dispatch-un", "known_properties", A, "un"))
+    # magnitudes: the same specification at tiny and huge scales.  The constraint sets are location-scale families
+    # (X meets spec  <=>  sX meets s.spec, variances scale by s^2), so enclosure and non-vacuity are demanded at every
+    # scale; for a power-of-two s every binary64 operation of the constructors commutes with the scaling, so the
+    # returned bounds must be s times the bounds of the unscaled specification.
+    SCALE_BASE.clear()
+    for fn in FUNS:
+        bases = [{k: float(v) for k, v in A.items()} for f2, A in WITNESS if f2 == fn and all(map(math.isfinite, map(float, A.values())))][:2]
+        for _ in range(ctx.scale(2, 12)):
+            bases.append({k: float(v) for k, v in gen_valid(rng, fn, True).items()})
+        for B in bases:
+            for sc, exact in SCALES:
+                A = {k: (v * sc * sc if k == "var" else v * sc) for k, v in B.items()}
+                if not all(math.isfinite(v) for v in A.values()):
+                    continue
+                via_kp = rng.random() < 0.25
+                cases.append(("scale", "known_properties" if via_kp else fn, A, "direct"))
+                SCALE_BASE[len(cases) - 1] = (fn, B, sc, exact)
+    # falsy-but-valid arguments through the dispatcher (0, 0.0, -0.0 are values, not "missing")
+    for A in FALSY:
+        cases.append(("falsy", "known_properties", dict(A), "direct"))
+        fn = ROUTE[tuple(sorted(A))]
+        cases.append(("falsy", fn, dict(A), "direct"))
     return cases
 
 
@@ -895,7 +930,10 @@ def run(ctx: core.Check, cases=None):
                 "mean=min, mean=max, std=0, maximal std, int and float arguments) and random doubles over 7 decades; malformed "
                 "tuples (inverted/equal range, constraint outside the range, negative or excessive dispersion) compared on error kind; "
                 "known_properties on all 128 subsets of the numeric constraints (+12 with family) and on admissible tuples of the 10 "
-                "supported sets, through return_construct and through the UncertainNumber wrapper. Each admissible case is checked "
+                "supported sets, through return_construct and through the UncertainNumber wrapper; every constructor (directly and through "
+                "the dispatcher) on witness and grid specifications scaled by 2^-30, 2^-60, 2^-70, 2^36, 1e-6, 1e-19, 1e6 (variances by the "
+                "square), with the full law oracle at that scale and, for the power-of-two scales, bounds == scale x bounds of the "
+                "unscaled specification; falsy-but-valid arguments (0, 0.0, -0.0) through dispatcher and constructors. Each admissible case is checked "
                 "against ~20-60 exact finite laws (Markov/Cantelli/range-mean two-point, Chebyshev three-point, three-point "
                 "moment-matched, mixtures, mean-fixed random laws; Khinchin mixtures of uniforms for the mode). A case is non-trivial "
                 "unless the range or the dispersion is degenerate; distinctness on (call, arguments).")
@@ -921,7 +959,8 @@ def run(ctx: core.Check, cases=None):
     reqs = [wire(fn, A) for (_, fn, A, _) in cases]
     replies = core.model_batch("C10", reqs)
     nl = ctx.scale(8, 14)
-    for (stream, fn, A, via), rep in zip(cases, replies):
+    base_cache = {}
+    for idx, ((stream, fn, A, via), rep) in enumerate(zip(cases, replies)):
         key = (fn, tuple(sorted((k, str(v)) for k, v in A.items())), via)
         ctor = feats_of(fn, A, stream, via)["constructor"]
         E = None
@@ -953,6 +992,25 @@ def run(ctx: core.Check, cases=None):
         if adm:
             call = {"fn": fn, "args": _ja(A), "via": via}
             oracle(ctx, ctor, E, impl, nl, rng_for(ctx, key), call, feats_of(fn, A, stream, via))
+        if adm and idx in SCALE_BASE and SCALE_BASE[idx][3] and not ill:
+            bfn, B, sc, _ = SCALE_BASE[idx]
+            bk = (bfn, tuple(sorted(B.items())))
+            if bk not in base_cache:
+                base_cache[bk] = run_impl(bfn, B, "direct")
+            ref = base_cache[bk]
+            if ref[0] == "ok" and impl[0] == "ok" and impl[1] != "parametric":
+                ctx.bump("scale:homogeneity-checked")
+                bs = max(abs(float(v)) for v in B.values()) or 1.0
+                for side, xs, ys in (("left", impl[1], ref[1]), ("right", impl[2], ref[2])):
+                    bad = next((k for k, (x, y) in enumerate(zip(xs, ys))
+                                if abs(x / sc - y) > 1e-9 * max(bs, abs(y))), None)
+                    if bad is not None:
+                        ctx.fail(dict(feats_of(fn, A, stream, via), symptom="scale-dependent", side=side),
+                                 dict(call, base=_ja(B), scale=sc, step=bad, bound=xs[bad], scaled_base_bound=ys[bad] * sc),
+                                 f"{call}: the specification is {sc!r} times {bfn}{_ja(B)} (a power of two, so every operation "
+                                 f"commutes with the scaling) but the {side} bound of step {bad} is {xs[bad]!r}, not "
+                                 f"{sc!r} x {ys[bad]!r} = {ys[bad] * sc!r}")
+                        break
         if len(ctx.samples) < 6 and stream in ("grid", "random", "dispatch-valid") and impl[0] == "ok" and impl[1] != "parametric":
             ctx.sample({"stream": stream, "fn": fn, "args": _ja(A), "left[0,1,100,199]": [impl[1][i] for i in (0, 1, 100, 199)],
                         "right[0,1,100,199]": [impl[2][i] for i in (0, 1, 100, 199)]})
